@@ -167,8 +167,11 @@ class IntermediateStates:
             )
 
             # prefactor due to the sum - sum_J |J><J|I>
+            # -> lifted index restrictions for the indices of the lower
+            #    excited intermediate state J
+            n_ov_lower = n_ov_from_space(lower_space)
             prefactor = Rational(
-                1, factorial(n_ov["occ"]) * factorial(n_ov["virt"])
+                1, factorial(n_ov_lower["occ"]) * factorial(n_ov_lower["virt"])
             )
 
             # orthogonalise with respsect to the lower excited ISR state
